@@ -241,7 +241,8 @@ CLAIMED = {
    text="Props/C08.v: recovery of the model is total; a recovery interrupted after any number of its own log records reached the "
         "disk, interrupted again, then completed yields the contents of a single uninterrupted recovery (C08_restartable, any "
         "reachable image, depth two and by the same lemma any depth); recovery leaves an empty log and reopening changes nothing "
-        "(C08_reopen); opening a clean image shows exactly what its header says (C08_clean).  On the engine every crash image is "
+        "(C08_reopen); opening a clean image shows exactly what its header says (C08_clean); inside a checkpoint (pages and header written, log "
+        "not truncated) the statement is refuted for a non-idempotent CREATE (C08_window_refuted, the recorded finding).  On the engine every crash image is "
         "reopened, probed (DDL + DML on new and existing tables), closed and reopened, and the recovery that ran is itself crashed "
         "at every prefix of its own file mutations and recovered again.",
    note="As C01; additionally the recorded finding C08-catalog-large-cells (CREATE TABLE failing after some recoveries, the B+tree "
